@@ -29,7 +29,7 @@ for k in sorted(os.listdir(sd)):
         shutil.copytree(src, dst)
         meta["confirmed_by_me"] = True
         meta["confirmed_against"] = head
-        meta["round"] = 2
+        meta["round"] = int(sys.argv[2]) if len(sys.argv) > 2 else 4
         json.dump(meta, open(os.path.join(dst, "meta.json"), "w"), indent=1)
         out["imported_as"] = dst
         d = subprocess.run(["python3", f"{ROOT}/tools/seedtest.py", "detect", dst, pid], capture_output=True, text=True)
